@@ -2,6 +2,40 @@
 (recorded with bin/snapshot_facts; compared with the regenerated facts on every run). -/
 namespace F1.Expected
 
+def skel_gdist_New : List String := [
+  "func NewDistribution(v0, v1 float64) (*Distribution, error) {",
+  "if v1 <= 0.0 {",
+  "return nil, errors.New(\"standard deviation must not be negative\")",
+  "}",
+  "return &Distribution{",
+  "mean: v0,",
+  "standardDeviation: v1,",
+  "variance: v1 * v1,",
+  "}, nil",
+  "}"
+]
+
+def skel_gdist_Exponent : List String := [
+  "func (v0 *Distribution) Exponent(v1 float64) float64 {",
+  "v2 := (v1 - v0.mean) * (v1 - v0.mean)",
+  "return math.Exp(-v2 / (2 * v0.variance))",
+  "}"
+]
+
+def skel_gdist_PDF : List String := [
+  "func (v0 *Distribution) PDF(v1 float64) float64 {",
+  "v2 := v0.standardDeviation * Sqrt2Pi",
+  "return v0.Exponent(v1) / v2",
+  "}"
+]
+
+def skel_gdist_CDF : List String := [
+  "func (v0 *Distribution) CDF(v1 float64) float64 {",
+  "v2 := (v1 - v0.mean) / (v0.standardDeviation * math.Sqrt2)",
+  "return 0.5 * math.Erfc(-v2)",
+  "}"
+]
+
 def skel_log_IterationStatsGroup : List String := [
   "func IterationStatsGroup(v0, v1, v2, v3 uint64, v4 time.Duration) slog.Attr {",
   "return slog.Group(\"iteration_stats\",",
@@ -55,6 +89,65 @@ def skel_metrics_Reset : List String := [
   "func (v0 *Metrics) Reset() {",
   "v0.Iteration.Reset()",
   "v0.Setup.Reset()",
+  "}"
+]
+
+def skel_metrics_build : List String := [
+  "func buildMetrics(v0 map[string]string) *Metrics {",
+  "v1 := map[float64]float64{",
+  "0.5: 0.05, 0.75: 0.05, 0.9: 0.01, 0.95: 0.001, 0.99: 0.001, 0.9999: 0.00001, 1.0: 0.00001,",
+  "}",
+  "v2 := getStaticMetricLabelKeys(v0)",
+  "return &Metrics{",
+  "Setup: prometheus.NewSummaryVec(prometheus.SummaryOpts{",
+  "Namespace: metricNamespace,",
+  "Subsystem: metricSubsystem,",
+  "Name: \"setup\",",
+  "Help: \"Duration of setup functions.\",",
+  "Objectives: v1,",
+  "}, append([]string{TestNameLabel, ResultLabel}, v2...)),",
+  "Iteration: prometheus.NewSummaryVec(prometheus.SummaryOpts{",
+  "Namespace: metricNamespace,",
+  "Subsystem: metricSubsystem,",
+  "Name: \"iteration\",",
+  "Help: \"Duration of iteration functions.\",",
+  "Objectives: v1,",
+  "}, append([]string{TestNameLabel, StageLabel, ResultLabel}, v2...)),",
+  "}",
+  "}"
+]
+
+def skel_metrics_NewInstance : List String := [
+  "func NewInstance(v0 *prometheus.Registry,",
+  "v1 bool,",
+  "v2 map[string]string,",
+  ") *Metrics {",
+  "v3 := buildMetrics(v2)",
+  "v3.Registry = v0",
+  "v3.Registry.MustRegister(",
+  "v3.Setup,",
+  "v3.Iteration,",
+  ")",
+  "v3.IterationMetricsEnabled = v1",
+  "v3.staticMetricLabelValues = getStaticMetricLabelValues(v2)",
+  "return v3",
+  "}"
+]
+
+def skel_metrics_RecordSetupResult : List String := [
+  "func (v0 *Metrics) RecordSetupResult(v1 string, v2 ResultType, v3 int64) {",
+  "v4 := append([]string{v1, v2.String()}, v0.staticMetricLabelValues...)",
+  "v0.Setup.WithLabelValues(v4...).Observe(float64(v3))",
+  "}"
+]
+
+def skel_metrics_RecordIterationStage : List String := [
+  "func (v0 *Metrics) RecordIterationStage(v1 string, v2 string, v3 ResultType, v4 int64) {",
+  "if !v0.IterationMetricsEnabled {",
+  "return",
+  "}",
+  "v5 := append([]string{v1, v2, v3.String()}, v0.staticMetricLabelValues...)",
+  "v0.Iteration.WithLabelValues(v5...).Observe(float64(v4))",
   "}"
 ]
 
@@ -136,6 +229,15 @@ def skel_average_Record : List String := [
   "}"
 ]
 
+def skel_average_Reset : List String := [
+  "func (v0 *IterationDurations) Reset() {",
+  "v0.sum.Store(0)",
+  "v0.count.Store(0)",
+  "v0.max.Store(0)",
+  "v0.min.Store(0)",
+  "}"
+]
+
 def skel_stats_Record : List String := [
   "func (v0 *Stats) Record(v1 metrics.ResultType, v2 int64) {",
   "switch v1 {",
@@ -173,6 +275,18 @@ def skel_stats_Total : List String := [
   "SuccessfulIterationDurations: v1,",
   "FailedIterationDurations: v2,",
   "}",
+  "}"
+]
+
+def skel_snapshot_Iterations : List String := [
+  "func (v0 *Snapshot) Iterations() uint64 {",
+  "return v0.FailedIterationDurations.Count + v0.SuccessfulIterationDurations.Count + v0.DroppedIterationCount",
+  "}"
+]
+
+def skel_snapshot_IterationsStarted : List String := [
+  "func (v0 *Snapshot) IterationsStarted() uint64 {",
+  "return v0.SuccessfulIterationDurations.Count + v0.FailedIterationDurations.Count",
   "}"
 ]
 
@@ -227,6 +341,69 @@ def skel_schedules_start : List String := [
   "return",
   "}",
   "v0.nextScheduleTimer = time.NewTimer(v0.list[v2].StartDelay)",
+  "}"
+]
+
+def skel_runner_New : List String := [
+  "func New(v0 RunFunction, v1 []Schedule) (*Runner, error) {",
+  "if len(v1) == 0 {",
+  "return nil, errors.New(\"empty schedules\")",
+  "}",
+  "v2 := &Runner{",
+  "restart: make(chan struct{}, 1),",
+  "runFunction: v0,",
+  "schedules: newSchedules(v1),",
+  "stopped: make(chan struct{}),",
+  "}",
+  "return v2, nil",
+  "}"
+]
+
+def skel_schedules_new : List String := [
+  "func newSchedules(v0 []Schedule) *schedules {",
+  "return &schedules{",
+  "list: v0,",
+  "currentScheduleIndex: -1,",
+  "ticker: time.NewTicker(time.Hour),",
+  "nextScheduleTimer: time.NewTimer(v0[0].StartDelay),",
+  "}",
+  "}"
+]
+
+def skel_schedules_startFirst : List String := [
+  "func (v0 *schedules) startFirst() {",
+  "v0.start(0)",
+  "}"
+]
+
+def skel_schedules_startNext : List String := [
+  "func (v0 *schedules) startNext() {",
+  "v0.start(v0.currentScheduleIndex + 1)",
+  "}"
+]
+
+def skel_schedules_currentFrequency : List String := [
+  "func (v0 *schedules) currentFrequency() time.Duration {",
+  "return v0.list[v0.currentScheduleIndex].Frequency",
+  "}"
+]
+
+def skel_schedules_stop : List String := [
+  "func (v0 *schedules) stop() {",
+  "v0.ticker.Stop()",
+  "v0.nextScheduleTimer.Stop()",
+  "}"
+]
+
+def skel_schedules_timeUntilNextSchedule : List String := [
+  "func (v0 *schedules) timeUntilNextSchedule() <-chan time.Time {",
+  "return v0.nextScheduleTimer.C",
+  "}"
+]
+
+def skel_schedules_currentScheduleTicker : List String := [
+  "func (v0 *schedules) currentScheduleTicker() <-chan time.Time {",
+  "return v0.ticker.C",
   "}"
 ]
 
@@ -308,6 +485,276 @@ def skel_result_GetTotals : List String := [
   "v0.mu.Lock()",
   "defer v0.mu.Unlock()",
   "v0.snapshot = v0.progressStats.Total()",
+  "}"
+]
+
+def skel_result_Progress : List String := [
+  "func (v0 *Result) Progress() *views.ViewContext[views.ProgressData] {",
+  "v0.mu.RLock()",
+  "defer v0.mu.RUnlock()",
+  "return v0.views.Progress(views.ProgressData{",
+  "Duration: v0.duration(),",
+  "SuccessfulIterationDurationsForPeriod: v0.snapshot.SuccessfulIterationDurationsForPeriod,",
+  "Period: v0.snapshot.Period,",
+  "FailedIterationCount: v0.snapshot.FailedIterationDurations.Count,",
+  "DroppedIterationCount: v0.snapshot.DroppedIterationCount,",
+  "SuccessfulIterationCount: v0.snapshot.SuccessfulIterationDurations.Count,",
+  "})",
+  "}"
+]
+
+def skel_result_HasDropped : List String := [
+  "func (v0 *Result) HasDroppedIterations() bool {",
+  "v0.mu.RLock()",
+  "defer v0.mu.RUnlock()",
+  "return v0.snapshot.DroppedIterationCount > 0",
+  "}"
+]
+
+def skel_result_Setup : List String := [
+  "func (v0 *Result) Setup() *views.ViewContext[views.SetupData] {",
+  "v0.mu.RLock()",
+  "defer v0.mu.RUnlock()",
+  "verifhook.At(\"result.nested\")",
+  "return v0.views.Setup(views.SetupData{",
+  "Error: v0.Error(),",
+  "})",
+  "}"
+]
+
+def skel_result_MaxDurationElapsed : List String := [
+  "func (v0 *Result) MaxDurationElapsed() *views.ViewContext[views.TimeoutData] {",
+  "v0.mu.RLock()",
+  "defer v0.mu.RUnlock()",
+  "return v0.views.Timeout(views.TimeoutData{",
+  "Duration: v0.duration(),",
+  "})",
+  "}"
+]
+
+def skel_result_Interrupted : List String := [
+  "func (v0 *Result) Interrupted() *views.ViewContext[views.InterruptData] {",
+  "v0.mu.RLock()",
+  "defer v0.mu.RUnlock()",
+  "return v0.views.Interrupt(views.InterruptData{",
+  "Duration: v0.duration(),",
+  "})",
+  "}"
+]
+
+def skel_result_RecordStarted : List String := [
+  "func (v0 *Result) RecordStarted() {",
+  "v0.mu.Lock()",
+  "defer v0.mu.Unlock()",
+  "v0.startTime = time.Now()",
+  "}"
+]
+
+def skel_result_RecordTestFinished : List String := [
+  "func (v0 *Result) RecordTestFinished() {",
+  "v0.mu.Lock()",
+  "defer v0.mu.Unlock()",
+  "v0.TestDuration = time.Since(v0.startTime)",
+  "}"
+]
+
+def skel_result_MaxIterationsReached : List String := [
+  "func (v0 *Result) MaxIterationsReached() *views.ViewContext[views.MaxIterationsReachedData] {",
+  "v0.mu.RLock()",
+  "defer v0.mu.RUnlock()",
+  "return v0.views.MaxIterationsReached(views.MaxIterationsReachedData{",
+  "Duration: v0.duration(),",
+  "})",
+  "}"
+]
+
+def skel_result_duration : List String := [
+  "func (v0 *Result) duration() time.Duration {",
+  "if v0.startTime.IsZero() {",
+  "return 0",
+  "}",
+  "return time.Since(v0.startTime)",
+  "}"
+]
+
+def skel_result_AddError : List String := [
+  "func (v0 *Result) AddError(v1 error) *Result {",
+  "v0.mu.Lock()",
+  "defer v0.mu.Unlock()",
+  "v0.errors = append(v0.errors, v1)",
+  "return v0",
+  "}"
+]
+
+def skel_result_Snapshot : List String := [
+  "func (v0 *Result) Snapshot() progress.Snapshot {",
+  "v0.mu.RLock()",
+  "defer v0.mu.RUnlock()",
+  "return v0.snapshot",
+  "}"
+]
+
+def skel_result_New : List String := [
+  "func NewResult(",
+  "v0 options.RunOptions,",
+  "v1 *views.Views,",
+  "v2 *progress.Stats,",
+  ") *Result {",
+  "return &Result{",
+  "runOptions: v0,",
+  "views: v1,",
+  "progressStats: v2,",
+  "}",
+  "}"
+]
+
+def skel_runcmd_Cmd : List String := [
+  "func Cmd(",
+  "v0 *scenarios.Scenarios,",
+  "v1 []api.Builder,",
+  "v2 envsettings.Settings,",
+  "v3 *metrics.Metrics,",
+  "v4 *ui.Output,",
+  ") *cobra.Command {",
+  "v5 := &cobra.Command{",
+  "Use: \"run <subcommand>\",",
+  "Short: \"Runs a test scenario\",",
+  "}",
+  "for _, v6 := range v1 {",
+  "v7 := &cobra.Command{",
+  "Use: v6.Name,",
+  "Short: v6.Description,",
+  "RunE: runCmdExecute(v0, v6, v2, v3, v4),",
+  "Args: cobra.MatchAll(cobra.ExactArgs(1)),",
+  "}",
+  "v7.Flags().BoolP(triggerflags.FlagVerbose, \"v\", false, \"enables log output to stdout\")",
+  "v7.Flags().Bool(triggerflags.FlagVerboseFail, false, \"DEPRECATED: log output to stdout on failure\")",
+  "if !v6.IgnoreCommonFlags {",
+  "v7.ValidArgs = v0.GetScenarioNames()",
+  "v7.Flags().Bool(triggerflags.FlagIgnoreDropped, false, \"dropped requests will not fail the run\")",
+  "v7.Flags().DurationP(triggerflags.FlagMaxDuration, \"d\", time.Second,",
+  "\"--max-duration 1s (stop after 1 second)\")",
+  "v7.Flags().IntP(triggerflags.FlagConcurrency, \"c\", 100,",
+  "\"--concurrency 2 (allow at most 2 groups of iterations to run concurrently)\")",
+  "v7.Flags().Uint64P(triggerflags.FlagMaxIterations, \"i\", 0,",
+  "\"--max-iterations 100 (stop after 100 iterations, regardless of remaining duration)\")",
+  "v7.Flags().Uint64(triggerflags.FlagMaxFailures, 0,",
+  "\"--max-failures 10 (load test will fail if more than 10 errors occurred, default is 0)\")",
+  "v7.Flags().Int(triggerflags.FlagMaxFailuresRate, 0,",
+  "\"--max-failures-rate 5 (load test will fail if more than 5\\\\% requests failed, default is 0)\")",
+  "}",
+  "v7.Flags().AddFlagSet(v6.Flags)",
+  "v5.AddCommand(v7)",
+  "}",
+  "return v5",
+  "}"
+]
+
+def skel_runcmd_Execute : List String := [
+  "func runCmdExecute(",
+  "v0 *scenarios.Scenarios,",
+  "v1 api.Builder,",
+  "v2 envsettings.Settings,",
+  "v3 *metrics.Metrics,",
+  "v4 *ui.Output,",
+  ") func(v5 *cobra.Command, v6 []string) error {",
+  "return func(v7 *cobra.Command, v8 []string) error {",
+  "v7.SilenceUsage = true",
+  "v7.SilenceErrors = true",
+  "v9, v10 := v1.New(v7.Flags())",
+  "if v10 != nil {",
+  "return fmt.Errorf(\"creating trigger command: %w\", v10)",
+  "}",
+  "var v11 string",
+  "var v12 time.Duration",
+  "var v13 int",
+  "var v14 uint64",
+  "var v15 uint64",
+  "var v16 int",
+  "var v17 bool",
+  "if v1.IgnoreCommonFlags {",
+  "v11 = v9.Options.Scenario",
+  "v12 = v9.Options.MaxDuration",
+  "v13 = v9.Options.Concurrency",
+  "v14 = v9.Options.MaxIterations",
+  "v15 = v9.Options.MaxFailures",
+  "v16 = v9.Options.MaxFailuresRate",
+  "v17 = v9.Options.IgnoreDropped",
+  "} else {",
+  "v11 = v8[0]",
+  "v12, v10 = v7.Flags().GetDuration(triggerflags.FlagMaxDuration)",
+  "if v10 != nil {",
+  "return fmt.Errorf(\"getting flag: %w\", v10)",
+  "}",
+  "v13, v10 = v7.Flags().GetInt(triggerflags.FlagConcurrency)",
+  "if v10 != nil {",
+  "return fmt.Errorf(\"getting flag: %w\", v10)",
+  "}",
+  "if v13 < 1 {",
+  "return fmt.Errorf(\"concurrency %d can't be less than 1\", v13)",
+  "}",
+  "v14, v10 = v7.Flags().GetUint64(triggerflags.FlagMaxIterations)",
+  "if v10 != nil {",
+  "return fmt.Errorf(\"getting flag: %w\", v10)",
+  "}",
+  "v15, v10 = v7.Flags().GetUint64(triggerflags.FlagMaxFailures)",
+  "if v10 != nil {",
+  "return fmt.Errorf(\"getting flag: %w\", v10)",
+  "}",
+  "v16, v10 = v7.Flags().GetInt(triggerflags.FlagMaxFailuresRate)",
+  "if v10 != nil {",
+  "return fmt.Errorf(\"getting flag: %w\", v10)",
+  "}",
+  "v17, v10 = v7.Flags().GetBool(triggerflags.FlagIgnoreDropped)",
+  "if v10 != nil {",
+  "return fmt.Errorf(\"getting flag: %w\", v10)",
+  "}",
+  "}",
+  "v18, v10 := v7.Flags().GetBool(triggerflags.FlagVerbose)",
+  "if v10 != nil {",
+  "return fmt.Errorf(\"getting flag: %w\", v10)",
+  "}",
+  "v19, v10 := v7.Flags().GetBool(triggerflags.FlagVerboseFail)",
+  "if v10 != nil {",
+  "return fmt.Errorf(\"getting flag: %w\", v10)",
+  "}",
+  "if v19 {",
+  "v4.Display(ui.WarningMessage{Message: \"--verbose-fail option has been removed\"})",
+  "}",
+  "if v2.Fluentd.Present() {",
+  "v4.Display(ui.WarningMessage{",
+  "Message: fmt.Sprintf(\"WARNING: fluentd integration has been removed. %s and %s have no effect.\",",
+  "envsettings.EnvFluentdHost,",
+  "envsettings.EnvFluentdPort,",
+  "),",
+  "},",
+  ")",
+  "}",
+  "v20, v10 := NewRun(options.RunOptions{",
+  "Scenario: v11,",
+  "MaxDuration: v12,",
+  "Concurrency: v13,",
+  "Verbose: v18,",
+  "MaxIterations: v14,",
+  "MaxFailures: v15,",
+  "MaxFailuresRate: v16,",
+  "IgnoreDropped: v17,",
+  "}, v0, v9, waitForCompletionTimeout, v2, v3, v4)",
+  "if v10 != nil {",
+  "return fmt.Errorf(\"new run: %w\", v10)",
+  "}",
+  "v21, v10 := v20.Do(v7.Context())",
+  "if v10 != nil {",
+  "return fmt.Errorf(\"internal error on run: %w\", v10)",
+  "}",
+  "if v21.Error() != nil {",
+  "return v21.Error()",
+  "} else if v21.Failed() {",
+  "return errors.New(\"load test failed - see log for details\")",
+  "}",
+  "v7.SilenceUsage = false",
+  "return nil",
+  "}",
   "}"
 ]
 
@@ -419,6 +866,165 @@ def skel_run_reportSetupFailure : List String := [
   "}"
 ]
 
+def skel_run_newProgressRunner : List String := [
+  "func newProgressRunner(v0 *Result, v1 *ui.Output) (*raterun.Runner, error) {",
+  "v2 := sync.Once{}",
+  "v3, v4 := raterun.New(func(v5 time.Duration) {",
+  "v0.SnapshotProgress(v5)",
+  "v1.Display(v0.Progress())",
+  "if v0.HasDroppedIterations() {",
+  "v2.Do(func() {",
+  "v1.Display(ui.WarningMessage{",
+  "Message: \"Dropping requests as workers are too busy. \" +",
+  "\"Considering increasing `--concurrency` argument\",",
+  "})",
+  "})",
+  "}",
+  "}, []raterun.Schedule{",
+  "{StartDelay: 0, Frequency: time.Second},",
+  "{StartDelay: time.Minute, Frequency: 10 * time.Second},",
+  "{StartDelay: 5 * time.Minute, Frequency: 30 * time.Second},",
+  "{StartDelay: 10 * time.Minute, Frequency: time.Minute},",
+  "})",
+  "if v4 != nil {",
+  "return nil, fmt.Errorf(\"new progress runner: %w\", v4)",
+  "}",
+  "return v3, nil",
+  "}"
+]
+
+def skel_run_NewRun : List String := [
+  "func NewRun(",
+  "v0 options.RunOptions,",
+  "v1 *scenarios.Scenarios,",
+  "v2 *api.Trigger,",
+  "v3 time.Duration,",
+  "v4 envsettings.Settings,",
+  "v5 *metrics.Metrics,",
+  "v6 *ui.Output,",
+  ") (*Run, error) {",
+  "v7 := &progress.Stats{}",
+  "v8 := views.New()",
+  "v9 := v1.GetScenario(v0.Scenario)",
+  "if v9 == nil {",
+  "return nil, fmt.Errorf(\"scenario not defined: %s\", v0.Scenario)",
+  "}",
+  "v10 := NewResult(v0, v8, v7)",
+  "v11 := ui.NewOutput(",
+  "v6.Logger.With(log.ScenarioAttr(v9.Name)),",
+  "v6.Printer,",
+  "v6.Interactive,",
+  "v0.LogToFile(),",
+  ")",
+  "v12 := NewScenarioLogger(v11)",
+  "v10.LogFilePath = v12.Open(",
+  "LogFilePathOrDefault(v4.Log.FilePath, v9.Name),",
+  "logutils.NewLogConfigFromSettings(v4),",
+  "v9.Name,",
+  "v0.LogToFile(),",
+  ")",
+  "v13, v14 := newProgressRunner(v10, v11)",
+  "if v14 != nil {",
+  "return nil, fmt.Errorf(\"creating progress runner: %w\", v14)",
+  "}",
+  "v15 := workers.NewActiveScenario(",
+  "v9,",
+  "v5,",
+  "v7,",
+  "v12.Logger,",
+  "log.NewSlogLogrusLogger(v12.Logger),",
+  ")",
+  "v16 := newMetricsPusher(v4, v9.Name, v5)",
+  "return &Run{",
+  "options: v0,",
+  "trigger: v2,",
+  "metrics: v5,",
+  "views: v8,",
+  "result: v10,",
+  "pusher: v16,",
+  "output: v11,",
+  "progressRunner: v13,",
+  "activeScenario: v15,",
+  "scenarioLogger: v12,",
+  "waitForCompletionTimeout: v3,",
+  "}, nil",
+  "}"
+]
+
+def skel_run_fail : List String := [
+  "func (v0 *Run) fail(v1 string) {",
+  "v0.result.AddError(errors.New(v1))",
+  "}"
+]
+
+def skel_run_printSummary : List String := [
+  "func (v0 *Run) printSummary() {",
+  "v0.output.Display(v0.result.Summary())",
+  "}"
+]
+
+def skel_views_ProgressLog : List String := [
+  "func (v0 ProgressData) Log(v1 *slog.Logger) {",
+  "v1.Info(\"progress\", log.IterationStatsGroup(",
+  "v0.SuccessfulIterationCount+v0.FailedIterationCount+v0.DroppedIterationCount,",
+  "v0.SuccessfulIterationCount,",
+  "v0.FailedIterationCount,",
+  "v0.DroppedIterationCount,",
+  "v0.Period,",
+  "))",
+  "}"
+]
+
+def skel_views_Progress : List String := [
+  "func (v0 *Views) Progress(v1 ProgressData) *ViewContext[ProgressData] {",
+  "return &ViewContext[ProgressData]{",
+  "view: v0.progress,",
+  "data: v1,",
+  "}",
+  "}"
+]
+
+def skel_views_ResultLog : List String := [
+  "func (v0 ResultData) Log(v1 *slog.Logger) {",
+  "v2 := log.IterationStatsGroup(",
+  "v0.IterationsStarted,",
+  "v0.SuccessfulIterationCount,",
+  "v0.FailedIterationCount,",
+  "v0.DroppedIterationCount,",
+  "v0.Duration,",
+  ")",
+  "if v0.Failed {",
+  "if v0.Error != nil {",
+  "v1.Error(\"Load Test Failed\", log.ErrorAttr(v0.Error), v2)",
+  "} else {",
+  "v1.Error(\"Load Test Failed\", v2)",
+  "}",
+  "} else {",
+  "v1.Info(\"Load Test Passed\", v2)",
+  "}",
+  "}"
+]
+
+def skel_views_Result : List String := [
+  "func (v0 *Views) Result(v1 ResultData) *ViewContext[ResultData] {",
+  "return &ViewContext[ResultData]{",
+  "view: v0.result,",
+  "data: v1,",
+  "}",
+  "}"
+]
+
+def skel_views_render : List String := [
+  "func render(v0 *template.Template, v1 any) string {",
+  "var v2 strings.Builder",
+  "v3 := v0.Execute(&v2, v1)",
+  "if v3 != nil {",
+  "panic(v3)",
+  "}",
+  "return v2.String()",
+  "}"
+]
+
 def skel_api_withRegularDistribution : List String := [
   "func withRegularDistribution(v0 time.Duration, v1 RateFunction) (time.Duration, RateFunction) {",
   "v2 := 100 * time.Millisecond",
@@ -487,6 +1093,35 @@ def skel_api_withRandomDistribution : List String := [
   "}"
 ]
 
+def skel_api_NewDistribution : List String := [
+  "func NewDistribution(",
+  "v0 DistributionType,",
+  "v1 time.Duration,",
+  "v2 RateFunction,",
+  "v3 func(int) int,",
+  ") (time.Duration, RateFunction, error) {",
+  "v4 := v3",
+  "if v4 == nil {",
+  "v4 = rand.Intn",
+  "}",
+  "if v1 <= 0 {",
+  "return v1, v2, fmt.Errorf(\"iteration duration %s must be positive\", v1)",
+  "}",
+  "switch v0 {",
+  "case NoneDistribution:",
+  "return v1, v2, nil",
+  "case RegularDistribution:",
+  "v5, v6 := withRegularDistribution(v1, v2)",
+  "return v5, v6, nil",
+  "case RandomDistribution:",
+  "v7, v8 := withRandomDistribution(v1, v2, v4)",
+  "return v7, v8, nil",
+  "default:",
+  "return v1, v2, fmt.Errorf(\"unable to parse distribution %s\", v0)",
+  "}",
+  "}"
+]
+
 def skel_api_WithJitter : List String := [
   "func WithJitter(v0 RateFunction, v1 float64) RateFunction {",
   "v2 := 0.0",
@@ -522,6 +1157,493 @@ def skel_api_NewIterationWorker : List String := [
   "v6.Trigger(v7, v10)",
   "}",
   "}",
+  "}",
+  "}"
+]
+
+def skel_trigger_GetBuilders : List String := [
+  "func GetBuilders(v0 *ui.Output) []api.Builder {",
+  "return []api.Builder{",
+  "constant.Rate(),",
+  "staged.Rate(),",
+  "gaussian.Rate(v0),",
+  "users.Rate(),",
+  "ramp.Rate(),",
+  "file.Rate(v0),",
+  "}",
+  "}"
+]
+
+def skel_constant_Builder : List String := [
+  "func Rate() api.Builder {",
+  "v0 := pflag.NewFlagSet(\"constant\", pflag.ContinueOnError)",
+  "v0.StringP(flagRate, \"r\", \"1/s\",",
+  "\"number of iterations to start per interval, in the form <request>/<duration>\")",
+  "triggerflags.JitterFlag(v0)",
+  "triggerflags.DistributionFlag(v0)",
+  "return api.Builder{",
+  "Name: \"constant <scenario>\",",
+  "Description: \"triggers test iterations at a constant rate\",",
+  "Flags: v0,",
+  "New: func(v1 *pflag.FlagSet) (*api.Trigger, error) {",
+  "v2, v3 := v1.GetString(flagRate)",
+  "if v3 != nil {",
+  "return nil, fmt.Errorf(\"getting flag: %w\", v3)",
+  "}",
+  "v4, v3 := v1.GetFloat64(triggerflags.FlagJitter)",
+  "if v3 != nil {",
+  "return nil, fmt.Errorf(\"getting flag: %w\", v3)",
+  "}",
+  "v5, v3 := v1.GetString(triggerflags.FlagDistribution)",
+  "if v3 != nil {",
+  "return nil, fmt.Errorf(\"getting flag: %w\", v3)",
+  "}",
+  "v6, v3 := CalculateConstantRate(v4, v2, v5)",
+  "if v3 != nil {",
+  "return nil, fmt.Errorf(\"calculating constant rate: %w\", v3)",
+  "}",
+  "return &api.Trigger{",
+  "Trigger: api.NewIterationWorker(v6.IterationDuration, v6.Rate),",
+  "Description: fmt.Sprintf(\"%s constant rate, using distribution %s\", v2, v5),",
+  "DryRun: v6.Rate,",
+  "},",
+  "nil",
+  "},",
+  "}",
+  "}"
+]
+
+def skel_constant_Calculate : List String := [
+  "func CalculateConstantRate(v0 float64, v1, v2 string) (*api.Rates, error) {",
+  "v3, v4, v5 := rate.ParseRate(v1)",
+  "if v5 != nil {",
+  "return nil, fmt.Errorf(\"unable to parse rate %s: %w\", v1, v5)",
+  "}",
+  "v6 := api.WithJitter(func(time.Time) int { return v3 }, v0)",
+  "v7, v8, v5 := api.NewDistribution(",
+  "api.DistributionType(v2), v4, v6, nil,",
+  ")",
+  "if v5 != nil {",
+  "return nil, fmt.Errorf(\"new distribution: %w\", v5)",
+  "}",
+  "return &api.Rates{",
+  "IterationDuration: v7,",
+  "Rate: v8,",
+  "}, nil",
+  "}"
+]
+
+def skel_file_ParseConfigFile : List String := [
+  "func ParseConfigFile(v0 []byte, v1 time.Time) (*RunnableStages, error) {",
+  "v2 := ConfigFile{}",
+  "v3 := yaml.Unmarshal(v0, &v2)",
+  "if v3 != nil {",
+  "return nil, fmt.Errorf(\"parsing config file as yaml: %w\", v3)",
+  "}",
+  "v4, v3 := v2.validateCommonFields()",
+  "if v3 != nil {",
+  "return nil, v3",
+  "}",
+  "var v5 []runnableStage",
+  "v6 := 0 * time.Second",
+  "for v7, v8 := range v4.Stages {",
+  "v9, v10 := v8.validateCommonFieldsOfStage(v7, v4.Default)",
+  "if v10 != nil {",
+  "return nil, v10",
+  "}",
+  "v6 += *v9.Duration",
+  "v11 := v4.Schedule.StageStart",
+  "if v11 == nil || v11.Add(v6).After(v1) {",
+  "v12, v13 := v9.parseStage(v7, v4.Default)",
+  "if v13 != nil {",
+  "return nil, v13",
+  "}",
+  "v5 = append(v5, *v12)",
+  "}",
+  "}",
+  "return &RunnableStages{",
+  "Scenario: *v4.Scenario,",
+  "Stages: v5,",
+  "stagesTotalDuration: v6,",
+  "MaxDuration: *v4.Limits.MaxDuration,",
+  "Concurrency: *v4.Limits.Concurrency,",
+  "MaxIterations: *v4.Limits.MaxIterations,",
+  "maxFailures: *v4.Limits.MaxFailures,",
+  "maxFailuresRate: *v4.Limits.MaxFailuresRate,",
+  "IgnoreDropped: *v4.Limits.IgnoreDropped,",
+  "}, nil",
+  "}"
+]
+
+def skel_file_parseStage : List String := [
+  "func (v0 *Stage) parseStage(v1 int, v2 Stage) (*runnableStage, error) {",
+  "switch *v0.Mode {",
+  "case \"constant\":",
+  "v3, v4 := v0.validateConstantStage(v1, v2)",
+  "if v4 != nil {",
+  "return nil, fmt.Errorf(\"validating constant stage: %w\", v4)",
+  "}",
+  "v5, v4 := constant.CalculateConstantRate(",
+  "*v3.Jitter,",
+  "*v3.Rate,",
+  "*v3.Distribution,",
+  ")",
+  "if v4 != nil {",
+  "return nil, fmt.Errorf(\"calculating constant rate: %w\", v4)",
+  "}",
+  "return &runnableStage{",
+  "StageDuration: *v3.Duration,",
+  "IterationDuration: v5.IterationDuration,",
+  "Rate: v5.Rate,",
+  "Params: *v3.Parameters,",
+  "}, nil",
+  "case \"ramp\":",
+  "v6, v7 := v0.validateRampStage(v1, v2)",
+  "if v7 != nil {",
+  "return nil, fmt.Errorf(\"validating ramp stage: %w\", v7)",
+  "}",
+  "v8, v7 := ramp.CalculateRampRate(",
+  "*v6.StartRate,",
+  "*v6.EndRate,",
+  "*v6.Distribution,",
+  "*v6.Duration,",
+  "*v6.Jitter,",
+  ")",
+  "if v7 != nil {",
+  "return nil, fmt.Errorf(\"calculating ramp rate: %w\", v7)",
+  "}",
+  "return &runnableStage{",
+  "StageDuration: *v6.Duration,",
+  "IterationDuration: v8.IterationDuration,",
+  "Rate: v8.Rate,",
+  "Params: *v6.Parameters,",
+  "}, nil",
+  "case \"staged\":",
+  "v9, v10 := v0.validateStagedStage(v1, v2)",
+  "if v10 != nil {",
+  "return nil, fmt.Errorf(\"validating staged stage: %w\", v10)",
+  "}",
+  "v11, v10 := staged.CalculateStagedRate(",
+  "*v9.Jitter,",
+  "*v9.IterationFrequency,",
+  "*v9.Stages,",
+  "*v9.Distribution,",
+  "nil,",
+  ")",
+  "if v10 != nil {",
+  "return nil, fmt.Errorf(\"calculating staged rate: %w\", v10)",
+  "}",
+  "return &runnableStage{",
+  "StageDuration: *v9.Duration,",
+  "IterationDuration: v11.IterationDuration,",
+  "Rate: v11.Rate,",
+  "Params: *v9.Parameters,",
+  "}, nil",
+  "case \"gaussian\":",
+  "v12, v13 := v0.validateGaussianStage(v1, v2)",
+  "if v13 != nil {",
+  "return nil, fmt.Errorf(\"validating gaussian stage: %w\", v13)",
+  "}",
+  "v14, v13 := gaussian.CalculateGaussianRate(",
+  "*v12.Volume, *v12.Jitter, *v12.Repeat,",
+  "*v12.IterationFrequency, *v12.Peak, *v12.StandardDeviation,",
+  "*v12.Weights, *v12.Distribution,",
+  ")",
+  "if v13 != nil {",
+  "return nil, fmt.Errorf(\"calculating gaussian rate: %w\", v13)",
+  "}",
+  "return &runnableStage{",
+  "StageDuration: *v12.Duration,",
+  "IterationDuration: v14.IterationDuration,",
+  "Rate: v14.Rate,",
+  "Params: *v12.Parameters,",
+  "}, nil",
+  "case \"users\":",
+  "v15, v16 := v0.validateUsersStage(v1, v2)",
+  "if v16 != nil {",
+  "return nil, v16",
+  "}",
+  "return &runnableStage{",
+  "StageDuration: *v15.Duration,",
+  "Params: *v15.Parameters,",
+  "UsersConcurrency: *v15.Concurrency,",
+  "}, nil",
+  "default:",
+  "return nil, fmt.Errorf(\"invalid stage mode at stage %d\", v1)",
+  "}",
+  "}"
+]
+
+def skel_file_validateCommonFields : List String := [
+  "func (v0 *ConfigFile) validateCommonFields() (*ConfigFile, error) {",
+  "if v0.Scenario == nil {",
+  "return nil, errors.New(\"missing scenario\")",
+  "}",
+  "if v0.Limits.MaxDuration == nil {",
+  "return nil, errors.New(\"missing max-duration\")",
+  "}",
+  "if v0.Limits.Concurrency == nil {",
+  "return nil, errors.New(\"missing concurrency\")",
+  "}",
+  "if *v0.Limits.Concurrency < 1 {",
+  "return nil, fmt.Errorf(\"concurrency %d can't be less than 1\", *v0.Limits.Concurrency)",
+  "}",
+  "if v0.Limits.MaxIterations == nil {",
+  "return nil, errors.New(\"missing max-iterations\")",
+  "}",
+  "if v0.Limits.IgnoreDropped == nil {",
+  "return nil, errors.New(\"missing ignore-dropped\")",
+  "}",
+  "if len(v0.Stages) == 0 {",
+  "return nil, errors.New(\"missing stages\")",
+  "}",
+  "if v0.Limits.MaxFailures == nil {",
+  "v1 := uint64(0)",
+  "v0.Limits.MaxFailures = &v1",
+  "}",
+  "if v0.Limits.MaxFailuresRate == nil {",
+  "v2 := 0",
+  "v0.Limits.MaxFailuresRate = &v2",
+  "}",
+  "if v0.Default.Concurrency == nil {",
+  "v0.Default.Concurrency = v0.Limits.Concurrency",
+  "}",
+  "if v0.Default.Jitter == nil {",
+  "v3 := 0.0",
+  "v0.Default.Jitter = &v3",
+  "}",
+  "return v0, nil",
+  "}"
+]
+
+def skel_file_validateCommonFieldsOfStage : List String := [
+  "func (v0 *Stage) validateCommonFieldsOfStage(v1 int, v2 Stage) (*Stage, error) {",
+  "if v0.Duration == nil {",
+  "if v2.Duration == nil {",
+  "return nil, fmt.Errorf(\"missing duration at stage %d\", v1)",
+  "}",
+  "v0.Duration = v2.Duration",
+  "}",
+  "if v0.Mode == nil {",
+  "if v2.Mode == nil {",
+  "return nil, fmt.Errorf(\"missing stage mode at stage %d\", v1)",
+  "}",
+  "v0.Mode = v2.Mode",
+  "}",
+  "return v0, nil",
+  "}"
+]
+
+def skel_file_validateConstantStage : List String := [
+  "func (v0 *Stage) validateConstantStage(v1 int, v2 Stage) (*Stage, error) {",
+  "if v0.Rate == nil {",
+  "if v2.Rate == nil {",
+  "return nil, fmt.Errorf(\"missing rate at stage %d\", v1)",
+  "}",
+  "v0.Rate = v2.Rate",
+  "}",
+  "if v0.Distribution == nil {",
+  "if v2.Distribution == nil {",
+  "return nil, fmt.Errorf(\"missing distribution at stage %d\", v1)",
+  "}",
+  "v0.Distribution = v2.Distribution",
+  "}",
+  "if v0.Jitter == nil {",
+  "v0.Jitter = v2.Jitter",
+  "}",
+  "if v0.Parameters == nil {",
+  "if v2.Parameters == nil {",
+  "v0.Parameters = &map[string]string{}",
+  "} else {",
+  "v0.Parameters = v2.Parameters",
+  "}",
+  "}",
+  "return v0, nil",
+  "}"
+]
+
+def skel_file_validateRampStage : List String := [
+  "func (v0 *Stage) validateRampStage(v1 int, v2 Stage) (*Stage, error) {",
+  "if v0.StartRate == nil {",
+  "if v2.StartRate == nil {",
+  "return nil, fmt.Errorf(\"missing start-rate at stage %d\", v1)",
+  "}",
+  "v0.StartRate = v2.StartRate",
+  "}",
+  "if v0.EndRate == nil {",
+  "if v2.EndRate == nil {",
+  "return nil, fmt.Errorf(\"missing end-rate at stage %d\", v1)",
+  "}",
+  "v0.EndRate = v2.EndRate",
+  "}",
+  "if v0.Distribution == nil {",
+  "if v2.Distribution == nil {",
+  "return nil, fmt.Errorf(\"missing distribution at stage %d\", v1)",
+  "}",
+  "v0.Distribution = v2.Distribution",
+  "}",
+  "if v0.Jitter == nil {",
+  "v0.Jitter = v2.Jitter",
+  "}",
+  "if v0.Parameters == nil {",
+  "if v2.Parameters == nil {",
+  "v0.Parameters = &map[string]string{}",
+  "} else {",
+  "v0.Parameters = v2.Parameters",
+  "}",
+  "}",
+  "return v0, nil",
+  "}"
+]
+
+def skel_file_validateStagedStage : List String := [
+  "func (v0 *Stage) validateStagedStage(v1 int, v2 Stage) (*Stage, error) {",
+  "if v0.Stages == nil {",
+  "if v2.Stages == nil {",
+  "return nil, fmt.Errorf(\"missing stages at stage %d\", v1)",
+  "}",
+  "v0.Stages = v2.Stages",
+  "}",
+  "if v0.IterationFrequency == nil {",
+  "if v2.IterationFrequency == nil {",
+  "return nil, fmt.Errorf(\"missing iteration-frequency at stage %d\", v1)",
+  "}",
+  "v0.IterationFrequency = v2.IterationFrequency",
+  "}",
+  "if v0.Distribution == nil {",
+  "if v2.Distribution == nil {",
+  "return nil, fmt.Errorf(\"missing distribution at stage %d\", v1)",
+  "}",
+  "v0.Distribution = v2.Distribution",
+  "}",
+  "if v0.Jitter == nil {",
+  "v0.Jitter = v2.Jitter",
+  "}",
+  "if v0.Parameters == nil {",
+  "if v2.Parameters == nil {",
+  "v0.Parameters = &map[string]string{}",
+  "} else {",
+  "v0.Parameters = v2.Parameters",
+  "}",
+  "}",
+  "return v0, nil",
+  "}"
+]
+
+def skel_file_validateGaussianStage : List String := [
+  "func (v0 *Stage) validateGaussianStage(v1 int, v2 Stage) (*Stage, error) {",
+  "if v0.Volume == nil {",
+  "if v2.Volume == nil {",
+  "return nil, fmt.Errorf(\"missing volume at stage %d\", v1)",
+  "}",
+  "v0.Volume = v2.Volume",
+  "}",
+  "if v0.Repeat == nil {",
+  "if v2.Repeat == nil {",
+  "return nil, fmt.Errorf(\"missing repeat at stage %d\", v1)",
+  "}",
+  "v0.Repeat = v2.Repeat",
+  "}",
+  "if v0.IterationFrequency == nil {",
+  "if v2.IterationFrequency == nil {",
+  "return nil, fmt.Errorf(\"missing iteration-frequency at stage %d\", v1)",
+  "}",
+  "v0.IterationFrequency = v2.IterationFrequency",
+  "}",
+  "if v0.Peak == nil {",
+  "if v2.Peak == nil {",
+  "return nil, fmt.Errorf(\"missing peak at stage %d\", v1)",
+  "}",
+  "v0.Peak = v2.Peak",
+  "}",
+  "if v0.Weights == nil {",
+  "if v2.Weights == nil {",
+  "return nil, fmt.Errorf(\"missing weights at stage %d\", v1)",
+  "}",
+  "v0.Weights = v2.Weights",
+  "}",
+  "if v0.StandardDeviation == nil {",
+  "if v2.StandardDeviation == nil {",
+  "return nil, fmt.Errorf(\"missing standard-deviation at stage %d\", v1)",
+  "}",
+  "v0.StandardDeviation = v2.StandardDeviation",
+  "}",
+  "if v0.Distribution == nil {",
+  "if v2.Distribution == nil {",
+  "return nil, fmt.Errorf(\"missing distribution at stage %d\", v1)",
+  "}",
+  "v0.Distribution = v2.Distribution",
+  "}",
+  "if v0.Jitter == nil {",
+  "v0.Jitter = v2.Jitter",
+  "}",
+  "if v0.Parameters == nil {",
+  "if v2.Parameters == nil {",
+  "v0.Parameters = &map[string]string{}",
+  "} else {",
+  "v0.Parameters = v2.Parameters",
+  "}",
+  "}",
+  "return v0, nil",
+  "}"
+]
+
+def skel_file_validateUsersStage : List String := [
+  "func (v0 *Stage) validateUsersStage(v1 int, v2 Stage) (*Stage, error) {",
+  "if v0.Concurrency == nil {",
+  "if v2.Concurrency == nil {",
+  "return nil, fmt.Errorf(\"missing users at stage %d\", v1)",
+  "}",
+  "v0.Concurrency = v2.Concurrency",
+  "}",
+  "if *v0.Concurrency < 1 {",
+  "return nil, fmt.Errorf(\"concurrency %d can't be less than 1 at stage %d\", *v0.Concurrency, v1)",
+  "}",
+  "if v0.Parameters == nil {",
+  "if v2.Parameters == nil {",
+  "v0.Parameters = &map[string]string{}",
+  "} else {",
+  "v0.Parameters = v2.Parameters",
+  "}",
+  "}",
+  "return v0, nil",
+  "}"
+]
+
+def skel_file_Builder : List String := [
+  "func Rate(v0 *ui.Output) api.Builder {",
+  "v1 := pflag.NewFlagSet(\"file\", pflag.ContinueOnError)",
+  "return api.Builder{",
+  "Name: \"file <filename>\",",
+  "Description: \"triggers test iterations from a yaml config file\",",
+  "Flags: v1,",
+  "New: func(v2 *pflag.FlagSet) (*api.Trigger, error) {",
+  "v3 := v2.Arg(0)",
+  "v4, v5 := readFile(v3, v0)",
+  "if v5 != nil {",
+  "return nil, v5",
+  "}",
+  "v6, v5 := ParseConfigFile(*v4, time.Now())",
+  "if v5 != nil {",
+  "return nil, v5",
+  "}",
+  "return &api.Trigger{",
+  "Trigger: newStagesWorker(v6.Stages),",
+  "DryRun: newDryRun(v6.Stages),",
+  "Description: fmt.Sprintf(\"%d different stages\", len(v6.Stages)),",
+  "Duration: v6.stagesTotalDuration,",
+  "Options: api.Options{",
+  "Scenario: v6.Scenario,",
+  "MaxDuration: v6.MaxDuration,",
+  "Concurrency: v6.Concurrency,",
+  "MaxIterations: v6.MaxIterations,",
+  "MaxFailures: v6.maxFailures,",
+  "MaxFailuresRate: v6.maxFailuresRate,",
+  "IgnoreDropped: v6.IgnoreDropped,",
+  "},",
+  "}, nil",
+  "},",
+  "IgnoreCommonFlags: true,",
   "}",
   "}"
 ]
@@ -572,6 +1694,651 @@ def skel_file_runStage : List String := [
   "}"
 ]
 
+def skel_file_setEnvs : List String := [
+  "func setEnvs(v0 map[string]string, v1 *ui.Output) {",
+  "for v2, v3 := range v0 {",
+  "v4 := os.Setenv(v2, v3)",
+  "if v4 != nil {",
+  "v1.Display(ui.ErrorMessage{",
+  "Message: \"unable set environment variables for given scenario\",",
+  "Error: v4,",
+  "})",
+  "}",
+  "}",
+  "}"
+]
+
+def skel_file_unsetEnvs : List String := [
+  "func unsetEnvs(v0 map[string]string, v1 *ui.Output) {",
+  "for v2 := range v0 {",
+  "v3 := os.Unsetenv(v2)",
+  "if v3 != nil {",
+  "v1.Display(ui.ErrorMessage{",
+  "Message: \"unable unset environment variables for given scenario\",",
+  "Error: v3,",
+  "})",
+  "}",
+  "}",
+  "}"
+]
+
+def skel_gauss_Builder : List String := [
+  "func Rate(v0 *ui.Output) api.Builder {",
+  "v1 := pflag.NewFlagSet(\"gaussian\", pflag.ContinueOnError)",
+  "v1.Float64(flagVolume, defaultVolume,",
+  "\"The desired volume to be achieved with the calculated load profile. \"+",
+  "\"Will be ignored if --peak-rate is also provided.\")",
+  "v1.Duration(flagRepeat, 24*time.Hour,",
+  "\"How often the cycle should repeat\")",
+  "v1.Duration(flagIterationFrequency, 1*time.Second,",
+  "\"How frequently iterations should be started\")",
+  "v1.String(flagWeights, \"\",",
+  "\"Optional scaling factor to apply per repetition. \"+",
+  "\"This can be used for example with daily repetitions to set different weights per day of the week\")",
+  "v1.Duration(flagPeak, 14*time.Hour,",
+  "\"The offset within the repetition window when the load should reach its maximum. \"+",
+  "\"Default 14 hours (with 24 hour default repeat)\")",
+  "v1.StringP(flagPeakRate, \"r\", \"\",",
+  "\"number of iterations per interval in peak time, \"+",
+  "\"in the form <request>/<duration> (e.g. 1/s). If --peak-rate is provided, \"+",
+  "\"the value given for --volume will be ignored.\")",
+  "v1.Duration(flagStandardDeviation, 150*time.Minute,",
+  "\"The standard deviation to use for the distribution of load\")",
+  "triggerflags.JitterFlag(v1)",
+  "triggerflags.DistributionFlag(v1)",
+  "return api.Builder{",
+  "Name: \"gaussian <scenario>\",",
+  "Description: \"distributes load to match a desired monthly volume\",",
+  "Flags: v1,",
+  "New: func(v2 *pflag.FlagSet) (*api.Trigger, error) {",
+  "v3, v4 := v2.GetFloat64(flagVolume)",
+  "if v4 != nil {",
+  "return nil, fmt.Errorf(\"getting flag: %w\", v4)",
+  "}",
+  "v5, v4 := v2.GetDuration(flagRepeat)",
+  "if v4 != nil {",
+  "return nil, fmt.Errorf(\"getting flag: %w\", v4)",
+  "}",
+  "v6, v4 := v2.GetDuration(\"iteration-frequency\")",
+  "if v4 != nil {",
+  "return nil, fmt.Errorf(\"getting flag: %w\", v4)",
+  "}",
+  "v7, v4 := v2.GetString(flagWeights)",
+  "if v4 != nil {",
+  "return nil, fmt.Errorf(\"getting flag: %w\", v4)",
+  "}",
+  "v8, v4 := v2.GetDuration(flagPeak)",
+  "if v4 != nil {",
+  "return nil, fmt.Errorf(\"getting flag: %w\", v4)",
+  "}",
+  "v9, v4 := v2.GetDuration(flagStandardDeviation)",
+  "if v4 != nil {",
+  "return nil, fmt.Errorf(\"getting flag: %w\", v4)",
+  "}",
+  "v10, v4 := v2.GetFloat64(triggerflags.FlagJitter)",
+  "if v4 != nil {",
+  "return nil, fmt.Errorf(\"getting flag: %w\", v4)",
+  "}",
+  "v11, v4 := v2.GetString(triggerflags.FlagDistribution)",
+  "if v4 != nil {",
+  "return nil, fmt.Errorf(\"getting flag: %w\", v4)",
+  "}",
+  "v12, v4 := v2.GetString(flagPeakRate)",
+  "if v4 != nil {",
+  "return nil, fmt.Errorf(\"getting flag: %w\", v4)",
+  "}",
+  "if v12 != \"\" {",
+  "if v3 != defaultVolume {",
+  "v0.Display(ui.WarningMessage{",
+  "Message: \"--peak-rate is provided, the value given for --volume will be ignored\",",
+  "})",
+  "}",
+  "v3, v4 = CalculateVolume(v12, v8, v9)",
+  "if v4 != nil {",
+  "return nil, v4",
+  "}",
+  "}",
+  "v13, v4 := CalculateGaussianRate(",
+  "v3,",
+  "v10,",
+  "v5,",
+  "v6,",
+  "v8,",
+  "v9,",
+  "v7,",
+  "v11,",
+  ")",
+  "if v4 != nil {",
+  "return nil, v4",
+  "}",
+  "v14 := \"\"",
+  "if v10 != 0 {",
+  "v14 = fmt.Sprintf(\" with jitter of %.2f%%\", v10)",
+  "}",
+  "v15 := fmt.Sprintf(",
+  "\"Gaussian distribution triggering %d iterations per %s, \"+",
+  "\"peaking at %s with standard deviation of %s%s, using distribution %s\",",
+  "int(v3),",
+  "v5,",
+  "v8,",
+  "v9,",
+  "v14,",
+  "v11,",
+  ")",
+  "return &api.Trigger{",
+  "Trigger: api.NewIterationWorker(v13.IterationDuration, v13.Rate),",
+  "DryRun: v13.Rate,",
+  "Description: v15,",
+  "Duration: v13.Duration,",
+  "},",
+  "nil",
+  "},",
+  "}",
+  "}"
+]
+
+def skel_gauss_Calculate : List String := [
+  "func CalculateGaussianRate(",
+  "v0, v1 float64,",
+  "v2, v3, v4, v5 time.Duration,",
+  "v6, v7 string,",
+  ") (*api.Rates, error) {",
+  "v8 := strings.Split(v6, \",\")",
+  "v9 := make([]float64, 0, len(v8))",
+  "for _, v10 := range v8 {",
+  "if v10 == \"\" {",
+  "continue",
+  "}",
+  "v11, v12 := strconv.ParseFloat(v10, 64)",
+  "if v12 != nil {",
+  "return nil, fmt.Errorf(\"unable to parse weights: %w\", v12)",
+  "}",
+  "v9 = append(v9, v11)",
+  "}",
+  "v13, v14 := NewCalculator(v4, v5, v3, v9, v0, v2)",
+  "if v14 != nil {",
+  "return nil, fmt.Errorf(\"calculator: %w\", v14)",
+  "}",
+  "v15 := api.WithJitter(v13.For, v1)",
+  "v16, v17, v14 := api.NewDistribution(",
+  "api.DistributionType(v7), v3, v15, nil,",
+  ")",
+  "if v14 != nil {",
+  "return nil, fmt.Errorf(\"new distribution: %w\", v14)",
+  "}",
+  "return &api.Rates{",
+  "IterationDuration: v16,",
+  "Rate: v17,",
+  "Duration: time.Hour * 24 * 356,",
+  "}, nil",
+  "}"
+]
+
+def skel_gauss_For : List String := [
+  "func (v0 *Calculator) For(v1 time.Time) int {",
+  "v2 := v1.Truncate(v0.repeatWindow)",
+  "v3 := float64(v1.Sub(v2))",
+  "v4 := v0.dist.PDF(v3)",
+  "v5 := v4 * v0.multiplier",
+  "if len(v0.weights) > 0 {",
+  "v6 := v1.Truncate(v0.repeatWindow * time.Duration(len(v0.weights)))",
+  "v7 := 0",
+  "for v6 != v2 {",
+  "v7++",
+  "v6 = v6.Add(v0.repeatWindow)",
+  "}",
+  "v5 = v5 * v0.weights[v7] / v0.averageWeight",
+  "}",
+  "v8 := v5 + v0.remainder",
+  "v9 := math.Floor(v8)",
+  "v0.remainder = v8 - v9",
+  "return int(v9)",
+  "}"
+]
+
+def skel_gauss_NewCalculator : List String := [
+  "func NewCalculator(",
+  "v0 time.Duration,",
+  "v1 time.Duration,",
+  "v2 time.Duration,",
+  "v3 []float64,",
+  "v4 float64,",
+  "v5 time.Duration,",
+  ") (*Calculator, error) {",
+  "v6 := v4 * float64(v2)",
+  "v7, v8 := gaussian.NewDistribution(float64(v0), float64(v1))",
+  "if v8 != nil {",
+  "return nil, fmt.Errorf(\"gaussian: %w\", v8)",
+  "}",
+  "v9 := 1.0",
+  "if len(v3) > 0 {",
+  "v10 := 0.0",
+  "for _, v11 := range v3 {",
+  "v10 += v11",
+  "}",
+  "v9 = v10 / float64(len(v3))",
+  "}",
+  "v12 := v7.CDF(float64(v5-v2)) - v7.CDF(0)",
+  "v6 /= v12",
+  "return &Calculator{",
+  "frequency: v2,",
+  "dist: v7,",
+  "weights: v3,",
+  "averageWeight: v9,",
+  "multiplier: v6,",
+  "repeatWindow: v5,",
+  "}, nil",
+  "}"
+]
+
+def skel_gauss_CalculateVolume : List String := [
+  "func CalculateVolume(v0 string, v1, v2 time.Duration) (float64, error) {",
+  "v3, v4 := parseRateToTPS(v0)",
+  "if v4 != nil {",
+  "return -1, v4",
+  "}",
+  "v5 := v1.Seconds()",
+  "v6 := v2.Seconds()",
+  "v7, v4 := gaussian.NewDistribution(v5, v6)",
+  "if v4 != nil {",
+  "return 0.0, fmt.Errorf(\"distribution: %w\", v4)",
+  "}",
+  "v8 := 60 * 60 * 24",
+  "var v9 float64",
+  "for v10 := range v8 {",
+  "v9 += v7.Exponent(float64(v10))",
+  "}",
+  "return math.Round(v3 * v9), nil",
+  "}"
+]
+
+def skel_gauss_parseRateToTPS : List String := [
+  "func parseRateToTPS(v0 string) (float64, error) {",
+  "v1, v2, v3 := rate.ParseRate(v0)",
+  "if v3 != nil {",
+  "return -1, fmt.Errorf(\"parse to tps %s: %w\", v0, v3)",
+  "}",
+  "return float64(v1) / v2.Seconds(), nil",
+  "}"
+]
+
+def skel_ramp_Builder : List String := [
+  "func Rate() api.Builder {",
+  "v0 := pflag.NewFlagSet(\"ramp\", pflag.ContinueOnError)",
+  "v0.StringP(flagStartRate, \"s\", \"1/s\",",
+  "\"number of iterations to start per interval, in the form <request>/<duration>\")",
+  "v0.StringP(flagEndRate, \"e\", \"1/s\",",
+  "\"number of iterations to end per interval, in the form <request>/<duration>\")",
+  "v0.DurationP(flagRampDuration, \"r\", 1*time.Second,",
+  "\"ramp duration, if not provided then --max-duration will be used\")",
+  "triggerflags.JitterFlag(v0)",
+  "triggerflags.DistributionFlag(v0)",
+  "return api.Builder{",
+  "Name: \"ramp <scenario>\",",
+  "Description: \"ramp up or down requests for a certain duration\",",
+  "Flags: v0,",
+  "New: func(v1 *pflag.FlagSet) (*api.Trigger, error) {",
+  "v2, v3 := v1.GetString(flagStartRate)",
+  "if v3 != nil {",
+  "return nil, fmt.Errorf(\"getting flag: %w\", v3)",
+  "}",
+  "v4, v3 := v1.GetString(flagEndRate)",
+  "if v3 != nil {",
+  "return nil, fmt.Errorf(\"getting flag: %w\", v3)",
+  "}",
+  "v5, v3 := v1.GetDuration(flagRampDuration)",
+  "if v3 != nil {",
+  "return nil, fmt.Errorf(\"getting flag: %w\", v3)",
+  "}",
+  "if v5 == 0 {",
+  "v5, v3 = v1.GetDuration(triggerflags.FlagMaxDuration)",
+  "if v3 != nil {",
+  "return nil, fmt.Errorf(\"getting flag: %w\", v3)",
+  "}",
+  "}",
+  "v6, v3 := v1.GetFloat64(triggerflags.FlagJitter)",
+  "if v3 != nil {",
+  "return nil, fmt.Errorf(\"getting flag: %w\", v3)",
+  "}",
+  "v7, v3 := v1.GetString(triggerflags.FlagDistribution)",
+  "if v3 != nil {",
+  "return nil, fmt.Errorf(\"getting flag: %w\", v3)",
+  "}",
+  "v8, v3 := CalculateRampRate(v2, v4, v7, v5, v6)",
+  "if v3 != nil {",
+  "return nil, fmt.Errorf(\"calculating ramp rate: %w\", v3)",
+  "}",
+  "return &api.Trigger{",
+  "Trigger: api.NewIterationWorker(v8.IterationDuration, v8.Rate),",
+  "Description: fmt.Sprintf(\"starting iterations from %s to %s during %v, using distribution %s\",",
+  "v2, v4, v5, v7),",
+  "DryRun: v8.Rate,",
+  "}, nil",
+  "},",
+  "}",
+  "}"
+]
+
+def skel_ramp_Calculate : List String := [
+  "func CalculateRampRate(",
+  "v0 string,",
+  "v1 string,",
+  "v2 string,",
+  "v3 time.Duration,",
+  "v4 float64,",
+  ") (*api.Rates, error) {",
+  "var v5 *time.Time",
+  "v6, v7, v8 := rate.ParseRate(v0)",
+  "if v8 != nil {",
+  "return nil, fmt.Errorf(\"parsing start rate: %w\", v8)",
+  "}",
+  "v9, v10, v8 := rate.ParseRate(v1)",
+  "if v8 != nil {",
+  "return nil, fmt.Errorf(\"parsing end rate: %w\", v8)",
+  "}",
+  "if v6 == v9 {",
+  "return nil, errors.New(\"start-rate and end-rate should be different, for constant rate try using the constant mode\")",
+  "}",
+  "if v7 != v10 {",
+  "return nil, errors.New(\"start-rate and end-rate are not using the same unit\")",
+  "}",
+  "if v3 < v7 {",
+  "return nil, errors.New(\"duration is lower than rate unit\")",
+  "}",
+  "v11 := func(v12 time.Time) int {",
+  "if v5 == nil {",
+  "v5 = &v12",
+  "}",
+  "if v5.Add(v3).Before(v12) {",
+  "return 0",
+  "}",
+  "v13 := v12.Sub(*v5)",
+  "v14 := float64(v13) / float64(v3)",
+  "v15 := v6 + int(v14*float64(v9-v6))",
+  "return v15",
+  "}",
+  "v16 := api.WithJitter(v11, v4)",
+  "v17, v18, v8 := api.NewDistribution(",
+  "api.DistributionType(v2), v7, v16, nil,",
+  ")",
+  "if v8 != nil {",
+  "return nil, fmt.Errorf(\"new distribution: %w\", v8)",
+  "}",
+  "return &api.Rates{",
+  "IterationDuration: v17,",
+  "Rate: v18,",
+  "Duration: v3,",
+  "}, nil",
+  "}"
+]
+
+def skel_rate_ParseRate : List String := [
+  "func ParseRate(v0 string) (int, time.Duration, error) {",
+  "var v1 int",
+  "var v2 time.Duration",
+  "if strings.Contains(v0, \"/\") {",
+  "var v3 error",
+  "v1, v3 = strconv.Atoi((v0)[0:strings.Index(v0, \"/\")])",
+  "if v3 != nil {",
+  "return v1, v2, fmt.Errorf(\"unable to parse rate %s: %w\", v0, v3)",
+  "}",
+  "if v1 < 0 {",
+  "return v1, v2, fmt.Errorf(\"rate %s can't be negative\", v0)",
+  "}",
+  "v4 := (v0)[strings.Index(v0, \"/\")+1:]",
+  "if v4 == \"\" {",
+  "return v1, v2, fmt.Errorf(\"unable to parse rate %s: missing unit\", v0)",
+  "}",
+  "if startsWithLetter(v4) {",
+  "v4 = \"1\" + v4",
+  "}",
+  "v2, v3 = time.ParseDuration(v4)",
+  "if v3 != nil {",
+  "return v1, v2, fmt.Errorf(\"unable to parse unit %s: %w\", v0, v3)",
+  "}",
+  "if v2 <= 0 {",
+  "return v1, v2, fmt.Errorf(\"rate %s: unit must be positive\", v0)",
+  "}",
+  "} else {",
+  "var v5 error",
+  "v1, v5 = strconv.Atoi(v0)",
+  "if v5 != nil {",
+  "return v1, v2, fmt.Errorf(\"unable to parse rate %s: %w\", v0, v5)",
+  "}",
+  "if v1 < 0 {",
+  "return v1, v2, fmt.Errorf(\"rate %s can't be negative\", v0)",
+  "}",
+  "v2 = 1 * time.Second",
+  "}",
+  "return v1, v2, nil",
+  "}"
+]
+
+def skel_rate_startsWithLetter : List String := [
+  "func startsWithLetter(v0 string) bool {",
+  "v1, _ := utf8.DecodeRuneInString(v0)",
+  "return unicode.IsLetter(v1)",
+  "}"
+]
+
+def skel_staged_NewRateCalculator : List String := [
+  "func NewRateCalculator(v0 []Stage, v1 *time.Time) *RateCalculator {",
+  "v2 := RateCalculator{",
+  "current: -1,",
+  "}",
+  "v2.addRange(v0)",
+  "if v1 != nil {",
+  "v2.start = *v1",
+  "}",
+  "return &v2",
+  "}"
+]
+
+def skel_staged_addRange : List String := [
+  "func (v0 *RateCalculator) addRange(v1 []Stage) {",
+  "for _, v2 := range v1 {",
+  "v0.add(v2)",
+  "}",
+  "}"
+]
+
+def skel_staged_add : List String := [
+  "func (v0 *RateCalculator) add(v1 Stage) {",
+  "if len(v0.stages) == 0 {",
+  "v1.StartTarget = 0",
+  "} else {",
+  "v1.StartTarget = v0.stages[len(v0.stages)-1].EndTarget",
+  "}",
+  "v0.stages = append(v0.stages, v1)",
+  "}"
+]
+
+def skel_staged_Rate : List String := [
+  "func (v0 *RateCalculator) Rate(v1 time.Time) int {",
+  "if v0.current < 0 {",
+  "v0.current = 0",
+  "if v0.start.IsZero() {",
+  "v0.start = v1",
+  "}",
+  "}",
+  "if v0.current > len(v0.stages)-1 {",
+  "return 0",
+  "}",
+  "for v0.current < len(v0.stages) && v1.Sub(v0.start)+1 > v0.stages[v0.current].Duration {",
+  "v0.start = v0.start.Add(v0.stages[v0.current].Duration)",
+  "v0.current++",
+  "}",
+  "if v0.current > len(v0.stages)-1 {",
+  "return 0",
+  "}",
+  "v2 := v1.Sub(v0.start)",
+  "v3 := float64(v2) / float64(v0.stages[v0.current].Duration)",
+  "v4 := v0.stages[v0.current].StartTarget +",
+  "int(v3*float64(v0.stages[v0.current].EndTarget-v0.stages[v0.current].StartTarget))",
+  "return v4",
+  "}"
+]
+
+def skel_staged_MaxDuration : List String := [
+  "func (v0 *RateCalculator) MaxDuration() time.Duration {",
+  "v1 := 0 * time.Second",
+  "for _, v2 := range v0.stages {",
+  "v1 += v2.Duration",
+  "}",
+  "return v1",
+  "}"
+]
+
+def skel_staged_ParseStages : List String := [
+  "func ParseStages(v0 string) ([]Stage, error) {",
+  "v1 := strings.Split(v0, \",\")",
+  "v2 := make([]Stage, len(v1))",
+  "for v3, v4 := range v1 {",
+  "v5 := strings.Split(strings.TrimSpace(v4), \":\")",
+  "if len(v5) != 2 {",
+  "return nil, fmt.Errorf(\"unable to parse stage %d: `%s` from `%s`\", v3, v4, v0)",
+  "}",
+  "v6, v7 := time.ParseDuration(strings.TrimSpace(v5[0]))",
+  "if v7 != nil {",
+  "return nil, fmt.Errorf(\"unable to parse duration %s in stage %d: %s\", v5[0], v3, v4)",
+  "}",
+  "v8, v7 := strconv.Atoi(strings.TrimSpace(v5[1]))",
+  "if v7 != nil {",
+  "return nil, fmt.Errorf(\"unable to parse target %s in stage %d: %s\", v5[1], v3, v4)",
+  "}",
+  "v2[v3] = Stage{",
+  "EndTarget: v8,",
+  "Duration: v6,",
+  "}",
+  "}",
+  "return v2, nil",
+  "}"
+]
+
+def skel_staged_Builder : List String := [
+  "func Rate() api.Builder {",
+  "v0 := pflag.NewFlagSet(\"staged\", pflag.ContinueOnError)",
+  "v0.StringP(\"stages\", \"s\", \"0s:1, 10s:1\",",
+  "\"Comma separated list of <stage_duration>:<target_concurrent_iterations>. \"+",
+  "\"During the stage, the number of concurrent iterations will ramp up or down to the target.\")",
+  "v0.DurationP(flagIterationFrequency, \"f\", 1*time.Second,",
+  "\"How frequently iterations should be started\")",
+  "v0.String(flagStartTime, \"\", \"Starting point of stage calculation, defaults to now\")",
+  "triggerflags.JitterFlag(v0)",
+  "triggerflags.DistributionFlag(v0)",
+  "return api.Builder{",
+  "Name: \"staged <scenario>\",",
+  "Description: \"triggers iterations at varying rates\",",
+  "Flags: v0,",
+  "New: func(v1 *pflag.FlagSet) (*api.Trigger, error) {",
+  "v2, v3 := v1.GetFloat64(triggerflags.FlagJitter)",
+  "if v3 != nil {",
+  "return nil, fmt.Errorf(\"getting flag: %w\", v3)",
+  "}",
+  "v4, v3 := v1.GetString(flagStages)",
+  "if v3 != nil {",
+  "return nil, fmt.Errorf(\"getting flag: %w\", v3)",
+  "}",
+  "v5, v3 := v1.GetDuration(flagIterationFrequency)",
+  "if v3 != nil {",
+  "return nil, fmt.Errorf(\"getting flag: %w\", v3)",
+  "}",
+  "v6, v3 := v1.GetString(triggerflags.FlagDistribution)",
+  "if v3 != nil {",
+  "return nil, fmt.Errorf(\"getting flag: %w\", v3)",
+  "}",
+  "var v7 *time.Time",
+  "v8, v3 := v1.GetString(flagStartTime)",
+  "if v3 != nil {",
+  "return nil, fmt.Errorf(\"getting flag: %w\", v3)",
+  "}",
+  "if v9, v10 := time.Parse(\"2006-01-02T15:04:05+07:00\", v8); v10 == nil {",
+  "v7 = &v9",
+  "}",
+  "v11, v3 := CalculateStagedRate(v2, v5, v4, v6, v7)",
+  "if v3 != nil {",
+  "return nil, v3",
+  "}",
+  "return &api.Trigger{",
+  "Trigger: api.NewIterationWorker(v11.IterationDuration, v11.Rate),",
+  "DryRun: v11.Rate,",
+  "Description: fmt.Sprintf(",
+  "\"Starting iterations every %s in numbers varying by time: %s, using distribution %s\",",
+  "v5, v4, v6),",
+  "Duration: v11.Duration,",
+  "},",
+  "nil",
+  "},",
+  "}",
+  "}"
+]
+
+def skel_staged_Calculate : List String := [
+  "func CalculateStagedRate(",
+  "v0 float64,",
+  "v1 time.Duration,",
+  "v2 string,",
+  "v3 string,",
+  "v4 *time.Time,",
+  ") (*api.Rates, error) {",
+  "v5, v6 := ParseStages(v2)",
+  "if v6 != nil {",
+  "return nil, fmt.Errorf(\"parsing stages: %w\", v6)",
+  "}",
+  "v7 := NewRateCalculator(v5, v4)",
+  "v8 := api.WithJitter(v7.Rate, v0)",
+  "v9, v10, v6 := api.NewDistribution(",
+  "api.DistributionType(v3), v1, v8, nil,",
+  ")",
+  "if v6 != nil {",
+  "return nil, fmt.Errorf(\"new distribution: %w\", v6)",
+  "}",
+  "return &api.Rates{",
+  "IterationDuration: v9,",
+  "Rate: v10,",
+  "Duration: v7.MaxDuration(),",
+  "}, nil",
+  "}"
+]
+
+def skel_users_Builder : List String := [
+  "func Rate() api.Builder {",
+  "v0 := pflag.NewFlagSet(\"users\", pflag.ContinueOnError)",
+  "return api.Builder{",
+  "Name: \"users <scenario>\",",
+  "Description: \"triggers test iterations from a static set of users controlled by the --concurrency flag\",",
+  "Flags: v0,",
+  "New: func(*pflag.FlagSet) (*api.Trigger, error) {",
+  "v1 := func(",
+  "v2 context.Context,",
+  "v3 *ui.Output,",
+  "v4 *workers.PoolManager,",
+  "v5 options.RunOptions,",
+  ") {",
+  "v6 := NewWorker(v5.Concurrency)",
+  "v6(v2, v3, v4, v5)",
+  "}",
+  "return &api.Trigger{",
+  "Trigger: v1,",
+  "Description: \"Makes requests from a set of users specified by --concurrency\",",
+  "DryRun: func(time.Time) int { return 1 },",
+  "},",
+  "nil",
+  "},",
+  "}",
+  "}"
+]
+
+def skel_users_NewWorker : List String := [
+  "func NewWorker(v0 int) api.WorkTriggerer {",
+  "return func(v1 context.Context, _ *ui.Output, v2 *workers.PoolManager, _ options.RunOptions) {",
+  "v3 := v2.NewContinuousPool(v0)",
+  "v3.Start(v1)",
+  "<-v2.WaitForCompletion()",
+  "}",
+  "}"
+]
+
 def skel_active_Run : List String := [
   "func (v0 *ActiveScenario) Run(v1 *iterationState) {",
   "defer v1.teardown()",
@@ -603,6 +2370,57 @@ def skel_active_RecordDropped : List String := [
   "func (v0 *ActiveScenario) RecordDroppedIteration() {",
   "v0.m.RecordIterationResult(v0.scenario.Name, metrics.DroppedResult, instantDuration)",
   "v0.progress.Record(metrics.DroppedResult, instantDuration)",
+  "}"
+]
+
+def skel_active_New : List String := [
+  "func NewActiveScenario(",
+  "v0 *scenarios.Scenario,",
+  "v1 *metrics.Metrics,",
+  "v2 *progress.Stats,",
+  "v3 *slog.Logger,",
+  "v4 *logrus.Logger,",
+  ") *ActiveScenario {",
+  "v5, v6 := testing.NewTWithOptions(v0.Name,",
+  "testing.WithIteration(\"setup\"),",
+  "testing.WithLogger(v3),",
+  "testing.WithLogrusLogger(v4),",
+  ")",
+  "v7 := &ActiveScenario{",
+  "scenario: v0,",
+  "m: v1,",
+  "t: v5,",
+  "Teardown: v6,",
+  "progress: v2,",
+  "logger: v3,",
+  "logrusLogger: v4,",
+  "}",
+  "return v7",
+  "}"
+]
+
+def skel_active_newIterationState : List String := [
+  "func (v0 *ActiveScenario) newIterationState() *iterationState {",
+  "v1, v2 := testing.NewTWithOptions(v0.scenario.Name,",
+  "testing.WithLogger(v0.logger),",
+  "testing.WithLogrusLogger(v0.logrusLogger),",
+  ")",
+  "return &iterationState{",
+  "t: v1,",
+  "teardown: v2,",
+  "}",
+  "}"
+]
+
+def skel_active_TeardownFailed : List String := [
+  "func (v0 *ActiveScenario) TeardownFailed() bool {",
+  "return v0.t.TeardownFailed()",
+  "}"
+]
+
+def skel_active_Failed : List String := [
+  "func (v0 *ActiveScenario) Failed() bool {",
+  "return v0.t.Failed()",
   "}"
 ]
 
@@ -643,6 +2461,22 @@ def skel_cpool_startWorker : List String := [
   "}"
 ]
 
+def skel_cpool_new : List String := [
+  "func newContinuousPool(v0 *PoolManager, v1 int) *ContinuousPool {",
+  "return &ContinuousPool{",
+  "numWorkers: v1,",
+  "iterationStatePool: v0.makeIterationStatePool(v1),",
+  "manager: v0,",
+  "}",
+  "}"
+]
+
+def skel_cpool_maxIterationsReached : List String := [
+  "func (v0 *ContinuousPool) maxIterationsReached() {",
+  "v0.workerCtxCancel()",
+  "}"
+]
+
 def skel_manager_NextIteration : List String := [
   "func (v0 *PoolManager) NextIteration() (uint64, error) {",
   "v1 := v0.iteration.Add(1)",
@@ -680,6 +2514,28 @@ def skel_manager_WaitForCompletion : List String := [
   "v0.runningWorkers.Wait()",
   "}()",
   "return v1",
+  "}"
+]
+
+def skel_manager_New : List String := [
+  "func New(v0 uint64, v1 *ActiveScenario) *PoolManager {",
+  "v2 := &PoolManager{",
+  "activeScenario: v1,",
+  "maxIterations: v0,",
+  "}",
+  "return v2",
+  "}"
+]
+
+def skel_manager_NewTriggerPool : List String := [
+  "func (v0 *PoolManager) NewTriggerPool(v1 int) *TriggerPool {",
+  "return newTriggerPool(v0, v1)",
+  "}"
+]
+
+def skel_manager_NewContinuousPool : List String := [
+  "func (v0 *PoolManager) NewContinuousPool(v1 int) *ContinuousPool {",
+  "return newContinuousPool(v0, v1)",
   "}"
 ]
 
@@ -806,6 +2662,48 @@ def skel_jobCounter_take : List String := [
   "}"
 ]
 
+def skel_pool_new : List String := [
+  "func newTriggerPool(v0 *PoolManager, v1 int) *TriggerPool {",
+  "return &TriggerPool{",
+  "numWorkers: v1,",
+  "iterationStatePool: v0.makeIterationStatePool(v1),",
+  "manager: v0,",
+  "jobsAvailableCond: sync.NewCond(&sync.Mutex{}),",
+  "}",
+  "}"
+]
+
+def skel_f1_execute : List String := [
+  "func (v0 *F1) execute(v1 []string) error {",
+  "v2, v3 := buildRootCmd(v0.scenarios, v0.settings, v0.profiling, v0.options.output, v0.options.staticMetrics)",
+  "if v3 != nil {",
+  "return fmt.Errorf(\"building root command: %w\", v3)",
+  "}",
+  "if len(v1) > 0 {",
+  "v2.SetArgs(v1)",
+  "}",
+  "v4 := make(chan struct{})",
+  "defer close(v4)",
+  "v5 := newSignalContext(v4)",
+  "v3 = v2.ExecuteContext(v5)",
+  "v6 := v0.profiling.stop()",
+  "v7 := errors.Join(v3, v6)",
+  "if v7 != nil {",
+  "return fmt.Errorf(\"command execution: %w\", v3)",
+  "}",
+  "return nil",
+  "}"
+]
+
+def skel_f1_ExecuteWithArgs : List String := [
+  "func (v0 *F1) ExecuteWithArgs(v1 []string) error {",
+  "if v2 := v0.execute(v1); v2 != nil {",
+  "return fmt.Errorf(\"execute with args: %w\", v2)",
+  "}",
+  "return nil",
+  "}"
+]
+
 def skel_f1_CombineScenarios : List String := [
   "func CombineScenarios(v0 ...testing.ScenarioFn) testing.ScenarioFn {",
   "return func(v1 *testing.T) testing.RunFn {",
@@ -819,6 +2717,45 @@ def skel_f1_CombineScenarios : List String := [
   "}",
   "}",
   "}",
+  "}"
+]
+
+def skel_f1_buildRootCmd : List String := [
+  "func buildRootCmd(",
+  "v0 *scenarios.Scenarios,",
+  "v1 envsettings.Settings,",
+  "v2 *profiling,",
+  "v3 *ui.Output,",
+  "v4 map[string]string,",
+  ") (*cobra.Command, error) {",
+  "v5 := &cobra.Command{",
+  "Use: getCmdName(),",
+  "Short: \"F1 load testing tool\",",
+  "PersistentPreRunE: startProfiling(v2),",
+  "SilenceErrors: true,",
+  "}",
+  "v5.PersistentFlags().String(flagCPUProfile, \"\", \"write cpu profile to `file`\")",
+  "if v6 := v5.MarkPersistentFlagFilename(flagCPUProfile); v6 != nil {",
+  "return nil, fmt.Errorf(\"marking flag as filename: %w\", v6)",
+  "}",
+  "v5.PersistentFlags().String(flagMemProfile, \"\", \"write memory profile to `file`\")",
+  "if v7 := v5.MarkPersistentFlagFilename(flagMemProfile); v7 != nil {",
+  "return nil, fmt.Errorf(\"marking flag as filename: %w\", v7)",
+  "}",
+  "metrics.InitWithStaticMetrics(v1.PrometheusEnabled(), v4)",
+  "v8 := metrics.Instance()",
+  "v9 := trigger.GetBuilders(v3)",
+  "v5.AddCommand(run.Cmd(",
+  "v0,",
+  "v9,",
+  "v1,",
+  "v8,",
+  "v3,",
+  "))",
+  "v5.AddCommand(chart.Cmd(v9, v3))",
+  "v5.AddCommand(scenarios.Cmd(v0))",
+  "v5.AddCommand(completionsCmd(v5))",
+  "return v5, nil",
   "}"
 ]
 
@@ -908,6 +2845,77 @@ def skel_t_handlePanic : List String := [
   ")",
   "v0.Fail()",
   "}",
+  "}"
+]
+
+def skel_t_Cleanup : List String := [
+  "func (v0 *T) Cleanup(v1 func()) {",
+  "v0.teardownStack = append(v0.teardownStack, v1)",
+  "}"
+]
+
+def skel_t_Errorf : List String := [
+  "func (v0 *T) Errorf(v1 string, v2 ...interface{}) {",
+  "v0.logger.Error(fmt.Sprintf(v1, v2...))",
+  "v0.Fail()",
+  "}"
+]
+
+def skel_t_Error : List String := [
+  "func (v0 *T) Error(v1 error) {",
+  "v0.logger.Error(\"iteration failed\", log.IterationAttr(v0.Iteration), log.ErrorAttr(v1))",
+  "v0.Fail()",
+  "}"
+]
+
+def skel_t_Fatalf : List String := [
+  "func (v0 *T) Fatalf(v1 string, v2 ...interface{}) {",
+  "v0.logger.Error(fmt.Sprintf(v1, v2...))",
+  "v0.FailNow()",
+  "}"
+]
+
+def skel_t_Fatal : List String := [
+  "func (v0 *T) Fatal(v1 error) {",
+  "v0.logger.Error(\"iteration failed\", log.IterationAttr(v0.Iteration), log.ErrorAttr(v1))",
+  "v0.FailNow()",
+  "}"
+]
+
+def skel_t_Failed : List String := [
+  "func (v0 *T) Failed() bool {",
+  "return v0.failed.Load()",
+  "}"
+]
+
+def skel_t_TeardownFailed : List String := [
+  "func (v0 *T) TeardownFailed() bool {",
+  "return v0.teardownFailed.Load()",
+  "}"
+]
+
+def skel_t_recordTime : List String := [
+  "func recordTime(v0 *T, v1 string, v2 time.Time) {",
+  "metrics.Instance().RecordIterationStage(",
+  "v0.Scenario,",
+  "v1,",
+  "metrics.Result(v0.Failed()),",
+  "time.Since(v2).Nanoseconds(),",
+  ")",
+  "}"
+]
+
+def skel_t_NewTWithOptions : List String := [
+  "func NewTWithOptions(v0 string, v1 ...TOption) (*T, func()) {",
+  "v2 := &T{",
+  "Scenario: v0,",
+  "teardownStack: []func(){},",
+  "}",
+  "v2.require = require.New(v2)",
+  "for _, v3 := range v1 {",
+  "v3(v2)",
+  "}",
+  "return v2, v2.teardown",
   "}"
 ]
 
